@@ -1,8 +1,9 @@
 (* C12 — a configuration file means what it says, and nonsense is refused.
    Only statements here; proofs live in Proofs/Config.v.  Gen_C12 is regenerated on every run from
    pyxel/detectors/{geometry,characteristics,environment}.py, apd/apd_characteristics.py (src_guards)
-   and pyxel/configuration/configuration.py (src_checks).  The documented ranges (Model.Config.documented),
-   the mode / detector key lists and the list of known discrepancies below are LITERAL. *)
+   pyxel/configuration/configuration.py (src_checks) and pyxel/exposure/readout.py (src_readout_params,
+   src_replace_carried).  The documented ranges (Model.Config.documented), the mode / detector key lists and the
+   list of readout settings are LITERAL. *)
 From Coq Require Import QArith ZArith List Bool String.
 From PyxelV Require Import Model.Config Proofs.Config.
 From PyxelGen Require Import Gen_C12.
@@ -12,110 +13,73 @@ Open Scope string_scope.
 
 (* ---------------------------------------------------------------------------------- same limits *)
 
-(* FULL statement: for every documented field r, for the constructor guard and for the setter guard
-   (s), for every number, NaN or sequence x the field can be given, the guard accepts x exactly when
-   x is inside the documented range:
-     accepts (ctor_guard f) x = accepts (setter_guard f) x = in_documented_range f x. *)
-Definition C12_same_limits_full : Prop := same_limits documented src_guards [].
-
-(* The unchanged tree does NOT satisfy it.  Each line is a concrete disagreement (field, side, value). *)
-Definition known_discrepancies : list witness := [
-  (* setters without any check (DESIGN section 7, F13) *)
-  ((CCharacteristics, "adc_bit_resolution"), SSetter, VNum 3);
-  ((CCharacteristics, "adc_bit_resolution"), SSetter, VNaN);
-  ((CCharacteristics, "adc_bit_resolution"), SSetter, VInf true);
-  ((CCharacteristics, "adc_bit_resolution"), SSetter, VNpNum 3);
-  ((CCharacteristics, "adc_bit_resolution"), SSetter, VNpNaN);
-  ((CCharacteristics, "adc_voltage_range"), SSetter, VSeq 3);
-  ((CCharacteristics, "adc_voltage_range"), SSetter, VNum 5);
-  ((CCharacteristics, "adc_voltage_range"), SSetter, VNaN);
-  ((CCharacteristics, "adc_voltage_range"), SSetter, VInf true);
-  ((CCharacteristics, "adc_voltage_range"), SSetter, VNpNum 5);
-  ((CCharacteristics, "adc_voltage_range"), SSetter, VNpNaN);
-  ((CAPDCharacteristics, "adc_voltage_range"), SSetter, VSeq 3);
-  ((CAPDCharacteristics, "adc_voltage_range"), SSetter, VNum 5);
-  ((CAPDCharacteristics, "adc_voltage_range"), SSetter, VNaN);
-  ((CAPDCharacteristics, "adc_voltage_range"), SSetter, VInf true);
-  ((CAPDCharacteristics, "adc_voltage_range"), SSetter, VNpNum 5);
-  ((CAPDCharacteristics, "adc_voltage_range"), SSetter, VNpNaN);
-  (* constructor without any check (F13) *)
-  ((CGeometry, "pixel_scale"), SCtor, VNum (-1));
-  ((CGeometry, "pixel_scale"), SCtor, VNaN);
-  ((CGeometry, "pixel_scale"), SCtor, VInf true);
-  ((CGeometry, "pixel_scale"), SCtor, VNpNum (-1));
-  ((CGeometry, "pixel_scale"), SCtor, VNpNaN);
-  (* `if x and not (...)`: a falsy out-of-range value is never looked at *)
-  ((CAPDCharacteristics, "adc_bit_resolution"), SCtor, VNum 0);
-  ((CAPDCharacteristics, "adc_bit_resolution"), SCtor, VNpNum 0);
-  ((CAPDCharacteristics, "adc_voltage_range"), SCtor, VSeq 0);
-  ((CAPDCharacteristics, "adc_voltage_range"), SCtor, VNum 0);
-  ((CAPDCharacteristics, "adc_voltage_range"), SCtor, VNpNum 0);
-  (* `if x <= lo: raise` / `if x < lo or x > hi: raise`: a NaN is never refused *)
-  ((CGeometry, "row"), SCtor, VNaN);
-  ((CGeometry, "row"), SCtor, VNpNaN);
-  ((CGeometry, "row"), SSetter, VNaN);
-  ((CGeometry, "row"), SSetter, VNpNaN);
-  ((CGeometry, "col"), SCtor, VNaN);
-  ((CGeometry, "col"), SCtor, VNpNaN);
-  ((CGeometry, "col"), SSetter, VNaN);
-  ((CGeometry, "col"), SSetter, VNpNaN);
-  ((CCharacteristics, "quantum_efficiency"), SSetter, VNaN);
-  ((CCharacteristics, "quantum_efficiency"), SSetter, VNpNaN);
-  ((CAPDCharacteristics, "quantum_efficiency"), SSetter, VNaN);
-  ((CAPDCharacteristics, "quantum_efficiency"), SSetter, VNpNaN);
-  ((CAPDCharacteristics, "avalanche_gain"), SSetter, VNaN);
-  ((CAPDCharacteristics, "avalanche_gain"), SSetter, VNpNaN);
-  ((CEnvironment, "wavelength"), SSetter, VNaN);
-  (* `if isinstance(x, int | float) and not (...)`: a number carried by numpy.int64 / float32 is never looked at *)
-  ((CEnvironment, "temperature"), SCtor, VNpNum (-5));
-  ((CEnvironment, "temperature"), SCtor, VNpNaN);
-  ((CEnvironment, "wavelength"), SCtor, VNpNum (-5));
-  ((CEnvironment, "wavelength"), SCtor, VNpNaN)
-].
-
-Theorem C12_same_limits_refuted : ~ C12_same_limits_full.
-Proof.
-  apply (discrepancy_refutes documented src_guards
-           ((CCharacteristics, "adc_bit_resolution"), SSetter, VNum 3)).
-  vm_compute. reflexivity.
-Qed.
-Print Assumptions C12_same_limits_refuted.
-
-(* every listed discrepancy is real: the guard of the current source and the documented range disagree on it
-   (so the exception list below contains nothing that is not a defect; a repaired field breaks this theorem) *)
-Theorem C12_same_limits_witnesses :
-  forall f s x, In (f, s, x) known_discrepancies ->
-  exists r g, lookup_doc documented f = Some r /\ guard_at src_guards f s = Some g /\
-              well_kinded (d_range r) x = true /\ agrees (accepts g x) (d_range r) x = false.
-Proof. apply witnesses_are_discrepancies. vm_compute. reflexivity. Qed.
-Print Assumptions C12_same_limits_witnesses.
-
-(* PARTIAL: outside the (field, side, class of value) triples of the listed discrepancies, the guard of the
-   current source accepts exactly the documented range — for ALL rationals, NaN, and all sequence lengths. *)
-Theorem C12_same_limits_partial :
-  same_limits documented src_guards (exceptions_of known_discrepancies).
+(* THE refusal theorem, at full strength, over the guard table regenerated from the current source: for every
+   documented field r, for the constructor guard and for the setter guard (s), and for EVERY value x the field
+   can be given — every rational, NaN, +inf, -inf, every sequence length, carried by a python int / float or
+   by a numpy scalar that is not an instance of int | float —
+     * a value carried by int / float is accepted exactly when it is inside the documented range:
+         accepts (ctor_guard f) x = accepts (setter_guard f) x = in_documented_range f x
+     * whatever carries the number, an out-of-range value (NaN included) is refused.
+   There is no exception list.  (History: the unrepaired tree refuted this statement on 46 (field, side, value
+   class) triples — unchecked setters, truthiness and isinstance preconditions, NaN-blind comparisons; they were
+   repaired by the fix: commits recorded in known_findings.json, and a regression makes this theorem fail.) *)
+Theorem C12_same_limits : same_limits documented src_guards [].
 Proof. apply check_table_sound. vm_compute. reflexivity. Qed.
-Print Assumptions C12_same_limits_partial.
+Print Assumptions C12_same_limits.
 
-(* non-vacuity: a checked triple, spelled out; and the number of checked well-kinded triples *)
-Example C12_same_limits_partial_instance :
+(* the same statement unfolded for one side of one field, for every value *)
+Theorem C12_same_limits_pointwise :
+  forall r s x k,
+    In r documented -> well_kinded (d_range r) x = true -> class_of x = Some k ->
+    exists g, guard_at src_guards (d_key r) s = Some g /\
+              (is_np x = false -> accepts g x = in_range (d_range r) x) /\
+              (accepts g x = true -> in_range (d_range r) x = true).
+Proof. intros r s x k Hr Hw Hk. exact (C12_same_limits r s x k Hr Hw Hk eq_refl). Qed.
+Print Assumptions C12_same_limits_pointwise.
+
+(* constructor and setter of a field agree with each other on every int / float carried value *)
+Theorem C12_ctor_equals_setter :
+  forall r x k,
+    In r documented -> well_kinded (d_range r) x = true -> class_of x = Some k -> is_np x = false ->
+    exists gc gs, guard_at src_guards (d_key r) SCtor = Some gc /\ guard_at src_guards (d_key r) SSetter = Some gs /\
+                  accepts gc x = accepts gs x.
+Proof.
+  intros r x k Hr Hw Hk Hn.
+  destruct (C12_same_limits r SCtor x k Hr Hw Hk eq_refl) as [gc [Hgc [Hc _]]].
+  destruct (C12_same_limits r SSetter x k Hr Hw Hk eq_refl) as [gs [Hgs [Hs _]]].
+  exists gc, gs. repeat split; try assumption. rewrite (Hc Hn), (Hs Hn). reflexivity.
+Qed.
+Print Assumptions C12_ctor_equals_setter.
+
+(* non-vacuity: an instance spelled out; and the number of well-kinded (field, side, value class) triples covered *)
+Example C12_same_limits_instance :
   forall q, exists g,
     guard_at src_guards (CCharacteristics, "quantum_efficiency") SCtor = Some g /\
     accepts g (VNum q) = Qle_bool 0 q && Qle_bool q 1.
 Proof.
   intro q.
-  destruct (C12_same_limits_partial
+  destruct (C12_same_limits
               (DocRow (CCharacteristics, "quantum_efficiency") (closed 0 1) true) SCtor (VNum q) KNum)
     as [g [Hg [Ha _]]]; try reflexivity.
   - simpl. tauto.
   - exists g. split; [exact Hg | exact (Ha eq_refl)].
 Qed.
 
-Example C12_same_limits_partial_coverage :
+Example C12_same_limits_instances :
+  exists gs gb gv gt,
+    guard_at src_guards (CCharacteristics, "adc_bit_resolution") SSetter = Some gs /\
+    guard_at src_guards (CAPDCharacteristics, "adc_bit_resolution") SCtor = Some gb /\
+    guard_at src_guards (CCharacteristics, "adc_voltage_range") SSetter = Some gv /\
+    guard_at src_guards (CEnvironment, "temperature") SCtor = Some gt /\
+    accepts gs (VNum 3) = false /\ accepts gs VNaN = false /\ accepts gs (VNum 4) = true /\ accepts gs (VNum 64) = true /\
+    accepts gb (VNum 0) = false /\ accepts gv (VSeq 3) = false /\ accepts gv (VSeq 2) = true /\ accepts gv (VNum 5) = false /\
+    accepts gt (VNpNum (-5)) = false /\ accepts gt (VNpNum 300) = true /\ accepts gt (VInf true) = false.
+Proof. vm_compute. repeat eexists. Qed.
+
+Example C12_same_limits_coverage :
   List.length (filter (fun t => match t with (r, s, k) =>
-                  negb (excepted (exceptions_of known_discrepancies) (d_key r) s k) &&
                   match d_range r, k with DRange _ _, KSeq => false | _, _ => true end end)
-                (list_prod (list_prod documented [SCtor; SSetter]) all_classes)) = 148%nat.
+                (list_prod (list_prod documented [SCtor; SSetter]) all_classes)) = 194%nat.
 Proof. vm_compute. reflexivity. Qed.
 
 (* None means "not specified": the constructor takes it exactly for the fields documented as optional *)
